@@ -174,6 +174,11 @@ func (v *Verifier) applyCall(st *State, tg *callTarget, bind ssa.Value, b *ssa.B
 		v.poolCall(st, tg, bind, in, full)
 		return true
 	}
+	// a package initialiser first runs the initialisers of its imports: out of scope (their package-level
+	// state is covered by the contracts of whatever reads it)
+	if org.Name() == "init" && org.Signature.Recv() == nil && org.Parent() == nil && caller.fn.Name() == "init" && org.Pkg != caller.fn.Pkg {
+		return true
+	}
 	con, cpkg := v.contractFor(org)
 	if con != nil {
 		calleeSubst := v.calleeSubst(fn, caller)
